@@ -8,7 +8,7 @@ use crate::sim::{finish_result, Hist, HistResult, Last, Params};
 use crate::subject::{Ctor, How, Kind};
 use crate::world::{KState, SrcStep, UpStep};
 
-pub const SCENARIOS: [&str; 10] = ["starve", "budget", "quiet_stale", "quiet_budget", "oscillate", "head_of_line", "wrap", "big_cap", "cap0_adapters", "exact_burst"];
+pub const SCENARIOS: [&str; 11] = ["starve", "budget", "quiet_stale", "quiet_budget", "oscillate", "head_of_line", "wrap", "big_cap", "cap0_adapters", "exact_burst", "parked_extend"];
 
 fn mix(a: u64, b: u64) -> u64 {
     let mut x = a ^ b.wrapping_mul(0x9E37_79B9_7F4A_7C15);
@@ -30,6 +30,7 @@ pub fn run_scenario(p: &Params, name: &str, idx: u64) -> HistResult {
         "oscillate" => oscillate(p, seed),
         "head_of_line" => head_of_line(p, seed),
         "exact_burst" => exact_burst(p, seed),
+        "parked_extend" => parked_extend(p, seed),
         "wrap" => wrap(p, seed),
         "big_cap" => big_cap(p, seed),
         "cap0_adapters" => cap0_adapters(p, seed),
@@ -786,8 +787,12 @@ fn exact_burst(p: &Params, seed: u64) -> HistResult {
     let w = h.w.clone();
     let kind = p.kind.unwrap_or_else(|| *h.rng.pick(&[Kind::ForEach, Kind::ForEach, Kind::BufU, Kind::BufO, Kind::TryBufU, Kind::TryBufO]));
     let nb = if p.small { *h.rng.pick(&[31usize, 32, 33, 61, 62]) } else { *h.rng.pick(&[31usize, 32, 33, 60, 61, 62, 63, 64, 65, 122, 123, 127, 128, 129, 255, 256, 257]) };
-    let mode = h.rng.below(3);
-    let limit = if mode == 1 {
+    // mode 3: `for_each_concurrent(0, ..)` holding several groups of futures; the newest group
+    // completes first while older ones stay pending
+    let mode = if kind == Kind::ForEach && nb > 33 && h.rng.chance(1, 4) { 3 } else { h.rng.below(3) };
+    let limit = if mode == 3 {
+        0
+    } else if mode == 1 {
         if kind == Kind::ForEach && h.rng.chance(1, 2) {
             0
         } else {
@@ -805,7 +810,7 @@ fn exact_burst(p: &Params, seed: u64) -> HistResult {
         script.extend(std::iter::repeat(UpStep::Item).take(second));
     }
     script.push(UpStep::End);
-    w.install_upstream(script, h.rng.below(5) as u8, if mode == 1 { 0 } else { 100 }, 0, 0);
+    w.install_upstream(script, h.rng.below(5) as u8, if mode == 1 || mode == 3 { 0 } else { 100 }, 0, 0);
     h.construct(kind, Ctor::New, limit, 0, None);
     let mut woke_all = false;
     for _ in 0..(8 * nb + 40) {
@@ -828,6 +833,19 @@ fn exact_burst(p: &Params, seed: u64) -> HistResult {
                     for id in ids {
                         h.op_complete(id, true);
                     }
+                } else if mode == 3 && !woke_all {
+                    woke_all = true;
+                    // groups hold 32, 64, 128 ... futures: finish the newest group only
+                    let ids = h.held.clone();
+                    let from = if ids.len() > 96 { 96 } else { 32 };
+                    for id in ids.iter().skip(from) {
+                        h.op_complete(*id, true);
+                    }
+                } else if mode == 3 && !h.held.is_empty() {
+                    let ids = h.held.clone();
+                    for id in ids {
+                        h.op_complete(id, true);
+                    }
                 } else if !w.up_open_gap(true) {
                     break;
                 }
@@ -835,6 +853,66 @@ fn exact_burst(p: &Params, seed: u64) -> HistResult {
         }
     }
     if !w.has_violation() && h.subj.is_some() {
+        h.drain();
+    }
+    if !w.has_violation() {
+        h.finish(false, true);
+    }
+    finish_result(h)
+}
+
+// ---------------------------------------------------------------------- parked_extend (C18, C04)
+
+/// `FuturesOrdered` with a head that stays pending while hundreds of younger futures are fed in
+/// through many small `extend` calls (or single pushes) and complete at once: their outputs pile
+/// up in the parked heap. The number of allocations may grow with the logarithm of the pile, not
+/// with the number of batches; afterwards the head completes and everything comes out in order.
+fn parked_extend(p: &Params, seed: u64) -> HistResult {
+    let mut h = Hist::new(seed, p.trace);
+    h.w.armed.set(crate::sim::prop_tag(p.prop));
+    let w = h.w.clone();
+    w.fair_enabled.set(false);
+    let c = *h.rng.pick(&[0usize, 0, 1, 8]);
+    h.construct(Kind::Fo, if c == 0 { Ctor::New } else { Ctor::WithCap }, c, 0, None);
+    let head = h.passive_fut();
+    h.push_id(head, How::Back);
+    let wk = h.last_waker;
+    h.poll(wk);
+    let rounds = if p.small { h.rng.range(20, 40) } else { *h.rng.pick(&[100usize, 250, 600]) };
+    let batch = h.rng.range(1, 3);
+    let by_push = h.rng.chance(1, 5);
+    w.extend_mode.set(*h.rng.pick(&[1u8, 1, 2, 0]));
+    for _ in 0..rounds {
+        if w.has_violation() || h.subj.is_none() {
+            break;
+        }
+        let before = h.held.len();
+        if by_push {
+            for _ in 0..batch {
+                let id = h.passive_fut();
+                h.push_id(id, How::Back);
+            }
+        } else {
+            h.op_extend(batch);
+        }
+        let new: Vec<u32> = h.held.iter().skip(before).copied().collect();
+        for id in new {
+            h.op_complete(id, false);
+        }
+        for _ in 0..3 {
+            let wk = h.last_waker;
+            if h.poll(wk) != Last::Pending || w.has_violation() || h.subj.is_none() {
+                break;
+            }
+            if !w.task_invoked_since(wk, h.last_start) {
+                break;
+            }
+        }
+    }
+    if !w.has_violation() && h.subj.is_some() {
+        h.flags.hol_stall = true;
+        h.check_alloc();
+        h.op_complete(head, true);
         h.drain();
     }
     if !w.has_violation() {
